@@ -326,7 +326,8 @@ impl Entry {
             (Some(lo), Some(hi)) => {
                 if tmin > hi {
                     Presence::Absent
-                } else if tmax < lo {
+                } else if tmax <= lo {
+                    // expired iff now > instant: AT the earliest admissible expiry instant the entry is still there
                     Presence::Must
                 } else {
                     Presence::Maybe
